@@ -314,7 +314,23 @@ def same_up_to_conditioning(compute_a, compute_b, env, rng, rtol=1e-9) -> bool:
                 d = np.abs(np.asarray(comp(env2)) - base)
                 noise = np.maximum(noise, np.where(np.isfinite(d), d, np.inf))
         ok = (np.abs(a - b) <= rtol * (np.abs(a) + np.abs(b)) + 1e-12 + 1e3 * noise) | (~np.isfinite(a) & ~np.isfinite(b))
-    return bool(np.all(ok))
+        if np.all(ok):
+            return True
+        # values on a branch cut of a square root / logarithm (negative real argument): the branch taken depends on the sign of a
+        # zero imaginary part, i.e. on the order of operations.  Move every float input off the real axis in both directions; if the
+        # two computations agree there, the disagreement on the axis is the cut, not a difference between the two codes.
+        for sgn in (1, -1):
+            env3 = {k: (v.astype(complex) * (1 + sgn * 1e-7j) if isinstance(v, np.ndarray) and v.dtype.kind == "f" and v.ndim == 1 else v)
+                    for k, v in env.items()}
+            try:
+                a3, b3 = np.asarray(compute_a(env3)), np.asarray(compute_b(env3))
+                a3, b3 = np.broadcast_arrays(a3, b3)
+            except Exception:  # noqa: BLE001
+                return False
+            ok3 = (np.abs(a3 - b3) <= 1e-6 * (np.abs(a3) + np.abs(b3)) + 1e-12) | (~np.isfinite(a3) & ~np.isfinite(b3))
+            if not np.all(ok3 | ok):
+                return False
+    return True
 
 
 def rebuild(obj):
